@@ -516,7 +516,7 @@ class cmap_format_2(CmapSubtable):
             for i in range(subHeader.entryCount):
                 gid = subHeader.glyphIndexArray[i]
                 if gid > 0:
-                    subHeader.glyphIndexArray[i] = gid - idDelta
+                    subHeader.glyphIndexArray[i] = (gid - idDelta) % 0x10000
 
     def decompile(self, data, ttFont):
         # we usually get here indirectly from the subtable __getattr__ function, in which case both args must be None.
